@@ -69,6 +69,8 @@ structure Input where
   validatorError : Bool
   methods : List String        -- OCSP / CRL / fallback annotations (logging only)
   serverErrors : List Bool     -- per-certificate server errors (logging only)
+  identityPlugin : Bool        -- the signature names a verification plugin that declares ONLY the
+                               -- trusted-identity capability: revocation stays with the native validator
   deriving Repr, FromJson, ToJson
 
 /-- outcome of the revocation validation -/
